@@ -125,6 +125,18 @@ fn u_space(tier: Tier) -> Vec<Universe> {
         u.name.push_str("/odd-space");
         out.push(u);
     }
+    // the SPACE range lines given in descending code-point order, one after the other (line order
+    // has no meaning in char.def)
+    let n = out.len();
+    for i in (0..n).step_by(6) {
+        let mut u = out[i].clone();
+        let mut space_lines: Vec<(u32, u32, Vec<usize>)> = u.dict.ranges.iter().filter(|r| r.2 == vec![CAT_SPACE]).cloned().collect();
+        u.dict.ranges.retain(|r| r.2 != vec![CAT_SPACE]);
+        space_lines.sort_by(|a, b| b.0.cmp(&a.0));
+        u.dict.ranges.extend(space_lines);
+        u.name.push_str("/descending-space-lines");
+        out.push(u);
+    }
     // a category whose name differs from SPACE only in case ("Space", without characters) declared
     // BEFORE the real SPACE category: names are case-sensitive, the real one must be the one skipped
     let n = out.len();
